@@ -159,6 +159,9 @@ func jsonLeaf() string {
 	case 12:
 		return `9007199254740993`
 	}
+	if rng.Intn(6) == 0 {
+		return pick([]string{`"a\\"`, `"C:\\tmp\\"`, `"\\"`, `"a\\*"`, `"x\\\\"`, `"*\\"`})
+	}
 	return pick([]string{`"\u0061"`, `"é"`, `"a\"b"`, `"5"`, `"1e6"`, `"NaN"`, `[]`, `{}`, `[1,2]`, `"?"`, `1.0`, `-0`, `1E400`})
 }
 
@@ -337,7 +340,17 @@ func genCustom(n int) {
 			rm = append(rm, fmt.Sprint(1+rng.Intn(19)))
 			ov = append(ov, fmt.Sprint(1+rng.Intn(19)))
 		}
-		emitD(q, "rm="+strings.Join(rm, ",")+";ov="+strings.Join(ov, ","), "src=custom")
+		spec := "rm=" + strings.Join(rm, ",") + ";ov=" + strings.Join(ov, ",")
+		emitD(q, spec, "src=custom")
+		// trees that only a JSON document (or a struct literal) can build
+		if i%4 == 0 {
+			emitD("J:"+jsonDoc(1+rng.Intn(2)), spec, "src=customjson")
+		}
+		if i%16 == 0 {
+			emitD("J:"+pick([]string{`{"left":"a","operator":"EQUALS","right":"b*"}`, `{"left":"a","operator":"EQUALS","right":"/r/"}`,
+				`{"left":{"left":"a","operator":"EQUALS","right":"w?"},"operator":"NOT"}`, `{"left":"a","operator":"LIKE","right":"b*"}`,
+				`{"left":"a","operator":"IN","right":{"left":["x","y"],"operator":"LIST"}}`}), spec, "src=customjson")
+		}
 	}
 }
 
@@ -481,7 +494,11 @@ func genInject(n int) {
 		case 4:
 			q = vw + " AND NOT " + fw + ":" + vw
 		case 5:
-			q = fw + ":{* TO " + vw + "}"
+			if rng.Intn(2) == 0 {
+				q = fw + ":[1 TO 5]"
+			} else {
+				q = fw + ":{* TO " + vw + "}"
+			}
 		case 6:
 			q = "-" + fw + ":" + vw + "* OR " + fw + ":/" + strings.ReplaceAll(strings.ToValidUTF8(v, ""), "/", "") + "/"
 		default:
@@ -500,7 +517,7 @@ var semStrFields = []string{"s", "name", "t_1"}
 var semInts = []string{"5", "-3", "0", "42", "007", "100", "9223372036854775807", "-9223372036854775808", "8", "16"}
 var semDecs = []string{"2.5", "0.5", "0.125", "-7.25", "1.5", "100.25", "3.0", "1e3", "0.75"}
 var semStrs = []string{"b", "foo", "bar9", `"q r"`, `"it's"`, `"a,b"`, `""`, `"x y z"`, "été", `"Z"`, "a.b", `"(p)"`, `"5"`, `"o'k, then"`, `"%"`, `"under_score"`}
-var semPats = []string{"w*", "?x", "a*b?c", "f*o", "*a", "?", "b*", "*n*", "ab?d*", "a_b*", "x%*"}
+var semPats = []string{"w*", "?x", "a*b?c", "f*o", "*a", "?", "b*", "*n*", "ab?d*", "a_b*", "x%*", `b\\*`, `x\*y*`, `q\?*`}
 
 func semNum() string {
 	if rng.Intn(3) == 0 {
